@@ -550,7 +550,7 @@ def gen_cfg(thorough):
     cfg = vlib.scratch() + "/Gen_OrderLimit_%s.cfg" % ("t" if thorough else "q")
     base = open(os.path.join(vlib.SPEC, "Gen_OrderLimit.cfg")).read()
     if thorough:
-        base = base.replace("MaxKeys = 2", "MaxKeys = 3").replace("FullWindows = FALSE", "FullWindows = TRUE").replace("Rich = FALSE", "Rich = TRUE")
+        base = base.replace("MaxKeys = 2", "MaxKeys = 3").replace("FullWindows = FALSE", "FullWindows = TRUE").replace("Rich = FALSE", "Rich = TRUE").replace("FullInv = FALSE", "FullInv = TRUE")
     open(cfg, "w").write(base)
     return cfg
 
@@ -709,7 +709,7 @@ def run(chk):
             pool["dev"].append((cq, obs, mv))
         elif kind in ("count", "rows", "order", "shape"):
             pool["bad"].append((cq, obs, mv))
-    per = 1500 if thorough else 500
+    per = 1500 if thorough else 300
     pairs = []
     for name in ("ok_tie", "dev", "bad"):
         p = pool[name]
